@@ -553,8 +553,10 @@ def case_strategy(size):
     @st.composite
     def single(draw):
         names = _Names()
-        kind = draw(st.sampled_from(["val", "val", "val", "undef", "it", "const"]))
-        if kind == "undef":
+        kind = draw(st.sampled_from(["val", "val", "val", "undef", "it", "const", "fixed"]))
+        if kind == "fixed":  # values whose str()/bytes look like literals although they are not strings
+            e = {"k": "var", "n": names.new(draw(st.sampled_from(FIXED_SINGLES)))}
+        elif kind == "undef":
             e = {"k": "var", "n": "missing"}
         elif kind == "it":
             v = draw(S["anyval"])
